@@ -5,15 +5,16 @@ from sim import ref
 from sim.chart import Cfg, swarm, gen_spec, HIST, tid
 from sim.engine import Result, Abandon, fp
 from sim.probes import ev
-from sim.semrun import Sim, standard_ops, legal_or_abandon, groups, event_uid
+from sim.semrun import Sim, standard_ops, legal_or_abandon, groups, event_uid, materialise
 from sim.checks import common
 
 from sismic.model import InternalEvent, MetaEvent
+from sim.checks.c09 import sig
 
 ID = 'C03'
 LEVEL = 'exploration'
 BUDGET = {'quick': 20, 'thorough': 240}
-STREAM_ORDER = ['ops', 'guards', 'chart', 'cfg']
+STREAM_ORDER = ['ops', 'guards', 'mat', 'chart', 'cfg']
 RULE = (common.GEN + 'all entry/exit/action code is probed and sends events; per returned macro step (i) the probe log is compared item by '
         'item with the log reconstructed from the micro steps, (ii) transition order and the exited/entered multisets of every transition '
         'with the reference model, (iii) the stated order constraints (descendants exited first, parents entered first, orthogonal '
@@ -46,8 +47,12 @@ def expected_log(sp, ms):
 def run(ch, tier):
     res = Result()
     cfg = swarm(ch.s('cfg'), Cfg(sends=True, notify=True, delays=True, pair_bias=2), tier)
+    if ch.s('cfg').flag(1, 3):
+        cfg.history = cfg.force_history = True
+        cfg.max_states = max(cfg.max_states, 8)
     sp = gen_spec(ch.s('chart'), cfg)
-    sim = Sim(sp)
+    returned = []       # every MacroStep handed out, with its rendering at that moment: a trace must not change afterwards
+    sim = Sim(sp, statechart=materialise(sp, ch, res))
     cfp = fp(sp.fingerprint())
     for r in standard_ops(sim, ch, tier, delays=True):
         res.stats['steps'] += 1
@@ -70,6 +75,7 @@ def run(ch, tier):
                 return res.fail('untold', 'execute_once returned None but code ran / configuration changed: %s' % side[:4],
                                 chart=sp.describe(), step=r.k)
             continue
+        returned.append((r.k, r.ms, sig(r.ms)))
         ctx = dict(chart=sp.describe(), pre=sp.canon(r.pre), step=r.k,
                    micro_steps=[repr(m) for m in r.ms.steps], log=[e for e in r.log if e[0] not in ('guard', 'tguard')][:40])
         v = check_trace(sp, r, res) or check_content(sp, r, res) or check_order(sp, r, res)
@@ -82,6 +88,10 @@ def run(ch, tier):
                 res.stats['steps_with_2plus_transitions'] += 1
             if res.sample is None and n_tr >= 1:
                 res.sample = dict(ctx)
+    for k, ms, was in returned:
+        if sig(ms) != was:
+            return res.fail('returned-trace-changed-later', 'the MacroStep returned by step %d read %r when it was returned and reads %r at the end '
+                            'of the run: a later step rewrote it' % (k, was[1], sig(ms)[1]), chart=sp.describe())
     res.sim_time = float(sim.now())
     return res
 
